@@ -2930,10 +2930,11 @@ fn write_reference_immediately(
 
 /// Compute reverse complement of a sequence
 fn reverse_complement_sequence(seq: &[u8]) -> Vec<u8> {
-    use crate::kmer::reverse_complement;
+    // Same rule as the decompressor (and C++ AGC): complement A/C/G/T, keep every other
+    // code (N and the IUPAC ambiguity codes) unchanged, so that the operation is an involution.
     seq.iter()
         .rev()
-        .map(|&base| reverse_complement(base as u64) as u8)
+        .map(|&base| if base < 4 { 3 - base } else { base })
         .collect()
 }
 
